@@ -38,7 +38,8 @@ pub fn run(toks: &[&str]) -> String {
         }
         let res = catch_unwind(AssertUnwindSafe(|| -> Option<String> {
             let mut t = action.iter().copied();
-            match t.next().unwrap() {
+            let kind = t.next().unwrap();
+            match kind {
                 "new" => { reg = QReg::new(parse_n(t.next().unwrap())); None }
                 "with" => {
                     let n = parse_n(t.next().unwrap());
@@ -71,6 +72,19 @@ pub fn run(toks: &[&str]) -> String {
                 "measureall" => {
                     let c = reg.measure();
                     Some(format!("m {} {}", c.get(), c.num()))
+                }
+                "tensorrt" | "tensorlt" | "mulassignt" => {
+                    // the other operand is itself a threaded register (threading models of both factors meet)
+                    let k = parse_n(t.next().unwrap());
+                    let n2 = parse_n(t.next().unwrap());
+                    let other = QReg::verif_from_raw(n2, read_raw(&mut t, n2));
+                    let other = match other.num_threads(k) { Some(o) => o, None => return Some("t none".into()) };
+                    match kind {
+                        "tensorrt" => reg = std::mem::take(&mut reg) * other,
+                        "tensorlt" => reg = other * std::mem::take(&mut reg),
+                        _ => reg *= other,
+                    }
+                    None
                 }
                 "tensorr" => {
                     let n2 = parse_n(t.next().unwrap());
